@@ -264,16 +264,25 @@ size_t varintRLEGetRunCount(const uint8_t *src, size_t encodedSize) {
     size_t runs = 0;
 
     while (ptr < end) {
-        size_t runLen;
+        /* Only count runs that lie entirely inside encodedSize */
+        uint64_t runLen;
         uint64_t value;
-        size_t consumed = varintRLEDecodeRun(ptr, &runLen, &value);
+        size_t remaining = (size_t)(end - ptr);
+        varintWidth lenWidth = varintTaggedGet(
+            ptr, remaining > 9 ? 9 : (int32_t)remaining, &runLen);
+        if (lenWidth == 0 || runLen == 0) {
+            break;
+        }
 
-        if (runLen == 0 || consumed == 0) {
+        remaining -= lenWidth;
+        varintWidth valueWidth = varintTaggedGet(
+            ptr + lenWidth, remaining > 9 ? 9 : (int32_t)remaining, &value);
+        if (valueWidth == 0) {
             break;
         }
 
         runs++;
-        ptr += consumed;
+        ptr += lenWidth + valueWidth;
     }
 
     return runs;
